@@ -38,6 +38,19 @@ _HANDLER_TRUSTED = [
 ]
 
 
+def _store_item(d, it):
+    try:
+        return {"step": it, "operation": d["steps"][it], "timeouts_s": [d["abs_s"], d["idle_s"]]}
+    except Exception:
+        return it
+
+
+def _sig_store(d, it, codes):
+    if codes == [5]:
+        return "C12/redis-clear-missing"
+    return None
+
+
 def _sig_hist(d, it, codes):
     return None
 
@@ -87,8 +100,35 @@ PROPS = {
         "describe_item": _hist_item, "trusted": _HANDLER_TRUSTED,
         "assumptions": ["panics inside third-party libraries are visible only to the recover() of the correspondence run, not to the theorem"],
     },
-    "C03": {"modules": ["Properties.C01"], "theorems": [], "describe_item": _hist_item},
-    "C13": {"modules": ["Properties.C01"], "theorems": [], "describe_item": _hist_item},
+    "C10": {
+        "modules": ["Properties.C10"],
+        "theorems": ["C10_memory_rule_band", "C10_redis_rule_band", "C10_honoured_only_if_alive", "C10_live_session_is_honoured", "C10_created_fixed", "C10_memory_store_follows_its_rule"],
+        "describe_item": _store_item, "signature": _sig_store,
+        "trusted": ["Redis is represented by miniredis (virtual clock via SetTime/FastForward); go-redis and the RFC 3339 time encoding are exercised, not modelled",
+                    "the system-level run uses the real start-up wiring (NewSessionStoreFactory.PreRun) and the real clock for the memory store; miniredis does not expire keys in real time, so Redis is covered at store level only"],
+        "assumptions": ["time does not run backwards between operations"],
+    },
+    "C12": {
+        "modules": ["Properties.C12"],
+        "theorems": ["C12_spec_is_plain_map", "C12_read_latest_write", "C12_ids_independent", "C12_remove_erases_all", "C12_clear_keeps_tokens", "C12_memory_refines_spec", "C12_created_fixed"],
+        "describe_item": _store_item, "signature": _sig_store,
+        "trusted": ["Redis is represented by miniredis; the Redis store's command-level model (Store/Redis.v) is tied to the code by lock-step comparison only - its refinement of the abstract map is compared on every explored sequence, not proved",
+                    "linearizability: the witness order is searched by the harness and CHECKED in Coq against the memory-store model"],
+        "assumptions": ["values are the ones the handler writes (parsing non-empty ID token, four non-empty login-state members) for the Redis/spec comparison"],
+    },
+    "C03": {
+        "modules": ["Properties.C03"],
+        "theorems": ["C03_login_completes", "C03_lifetime"],
+        "describe_item": _hist_item, "trusted": _HANDLER_TRUSTED,
+        "assumptions": ["'compliant provider' is the hypothesis list of C03_login_completes; cookie parsing of the presented cookie is C05_cookie_roundtrip",
+                        "the provider's authorization UI and Envoy's redirect handling are represented by the browser simulator"],
+    },
+    "C13": {
+        "modules": ["Properties.C13"],
+        "theorems": ["C13_escape_roundtrip", "C13_encode_parse_roundtrip", "C13_location_wellformed", "C13_location_endpoint_query_retained", "C13_redirects"],
+        "describe_item": _hist_item, "trusted": _HANDLER_TRUSTED,
+        "assumptions": ["the authorization endpoint carries no fragment (the loader does not forbid one); 'scope contains openid' is established by the loader (C17)"],
+    },
     "C07": {
         "modules": ["Properties.C07"],
         "theorems": ["C07_trigger_spec", "C07_query_irrelevant", "C07_path_split"],
